@@ -178,6 +178,13 @@ class Calculation:
         set
         """
         self._executor.output.filename = filename
+
+        if not self.terminated_normally:
+            # Nothing from a rejected output should be set on the molecule
+            raise ex.CouldNotGetProperty(
+                f"{filename} did not terminate normally"
+            )
+
         self._executor.set_properties()
         self._check_properties_exist()
         return None
